@@ -2,6 +2,7 @@ import RgVerif.Lemmas.LineBufferFill
 import RgVerif.Lemmas.BinaryOut
 import RgVerif.Lemmas.ReadByLineClean
 import RgVerif.Lemmas.CoreSliceContract
+import RgVerif.Lemmas.CoreMultiLinePres
 /-
 C14 — binary data never reaches the output unless text mode is requested.
 -/
@@ -228,6 +229,122 @@ theorem slice_stdout_no_nul (cfg : Searcher.Config) (m : Searcher.MatcherI) (σ 
     | inr hin =>
       have := hnone e hin
       cases e <;> simp [toEv] at this <;> simp [Searcher.Event.isBD] at hbd
+
+/-! ### the searcher contract for the multi-line strategy (`MultiLine` over `Core`, `-U`) -/
+
+/-- **Multi-line strategy, `Quit(b)`: no delivered line holds `b`.**  Everything `MultiLine`
+delivers -- the lines of a (merged) match, of an inverted run, before / after / passthru context,
+the trailing context at the end -- goes through `Core::matched` or a `*_context_by_line` helper,
+i.e. through a `sink_*` call that runs `detect_binary` on the line first; what `MultiLine` does
+itself only moves `pos` and `last_match`.  Every configuration, matcher, sink script, input. -/
+theorem multiline_delivers_clean (cfg : Searcher.Config) (m : Searcher.MatcherI) (σ : Searcher.Script)
+    (inp : Bytes) (b : Nat) (hb : cfg.binary = .quit b) :
+    ∀ ev ∈ (Searcher.multiLine cfg m σ inp).events, b ∉ ev.lineBytes :=
+  (Searcher.multiLine_SI cfg m σ inp b (by rw [hb]; rfl)).clean (by rw [hb]; rfl)
+
+/-- **Multi-line strategy, `Quit(b)` or `Convert(b)`: a line holding `b` is delivered only after
+`binary_data` was reported.** -/
+theorem multiline_delivers_guarded (cfg : Searcher.Config) (m : Searcher.MatcherI) (σ : Searcher.Script)
+    (inp : Bytes) (b : Nat) (hb : cfg.binary = .quit b ∨ cfg.binary = .convert b) :
+    Searcher.GuardedL b (Searcher.multiLine cfg m σ inp).events :=
+  (Searcher.multiLine_SI cfg m σ inp b (by cases hb with | inl h => rw [h]; rfl | inr h => rw [h]; rfl)).guarded
+
+/-- **Any run that keeps the searcher contract prints no NUL**: the standard printer fed with the
+callbacks of a core whose log is clean under `Quit(0)` and guarded under `Quit(0)` / `Convert(0)`. -/
+theorem contract_stdout_no_nul (cfg : Searcher.Config) (st : Searcher.Core) (hSI : Searcher.SI cfg 0 st) (det : Det)
+    (hd : (det = .quit ∧ cfg.binary = .quit 0) ∨ (det = .convert ∧ cfg.binary = .convert 0))
+    (path : Bytes) (hp : 0 ∉ path) :
+    0 ∉ render path (stdRun det (st.events.filterMap toEv)) := by
+  have hn : det ≠ .none := by
+    cases hd with
+    | inl h => rw [h.1]; decide
+    | inr h => rw [h.1]; decide
+  have hbytes : ∀ (e : Searcher.Event) (e' : Ev), toEv e = some e' → e'.bytes = e.lineBytes ∧
+      (e.isBD = true ↔ e'.isBinaryData = true) := by
+    intro e e' h
+    cases e <;> simp [toEv] at h <;> subst h <;>
+      simp [Ev.bytes, Searcher.Event.lineBytes, Searcher.Event.isBD, Ev.isBinaryData]
+  apply C14_stdout det hn _ _ _ path hp
+  · intro hq
+    have hb : cfg.binary = .quit 0 := by
+      cases hd with
+      | inl h => exact h.2
+      | inr h => rw [h.1] at hq; cases hq
+    intro ev hev
+    rw [List.mem_filterMap] at hev
+    obtain ⟨e, he, hte⟩ := hev
+    rw [(hbytes e ev hte).1]
+    exact hSI.clean (by rw [hb]; rfl) e he
+  · intro _ pre ev post hsplit h0
+    have hg := hSI.guarded
+    rw [List.filterMap_eq_append_iff] at hsplit
+    obtain ⟨l1, l2, hl, h1, h2⟩ := hsplit
+    rw [List.filterMap_eq_cons_iff] at h2
+    obtain ⟨m1, a, m2, hl2, hnone, ha, _⟩ := h2
+    have hsrc : st.events = (l1 ++ m1) ++ a :: m2 := by
+      rw [hl, hl2]; simp
+    obtain ⟨e, hme, hbd⟩ := hg (l1 ++ m1) a m2 hsrc (by rw [← (hbytes a ev ha).1]; exact h0)
+    simp only [List.mem_append] at hme
+    cases hme with
+    | inl hin =>
+      cases e with
+      | binaryData off =>
+        refine ⟨.binaryData off, ?_, rfl⟩
+        rw [← h1, List.mem_filterMap]
+        exact ⟨_, hin, rfl⟩
+      | _ => simp [Searcher.Event.isBD] at hbd
+    | inr hin =>
+      have := hnone e hin
+      cases e <;> simp [toEv] at this <;> simp [Searcher.Event.isBD] at hbd
+
+/-- **Multi-line strategy end to end (model of `MultiLine` + `Core` + printer): no NUL is written.** -/
+theorem multiline_stdout_no_nul (cfg : Searcher.Config) (m : Searcher.MatcherI) (σ : Searcher.Script)
+    (inp : Bytes) (det : Det)
+    (hd : (det = .quit ∧ cfg.binary = .quit 0) ∨ (det = .convert ∧ cfg.binary = .convert 0))
+    (path : Bytes) (hp : 0 ∉ path) :
+    0 ∉ render path (stdRun det ((Searcher.multiLine cfg m σ inp).events.filterMap toEv)) :=
+  contract_stdout_no_nul cfg _
+    (Searcher.multiLine_SI cfg m σ inp 0 (by cases hd with | inl h => rw [h.2]; rfl | inr h => rw [h.2]; rfl))
+    det hd path hp
+
+/-- **`search_slice`, whichever strategy it selects** (line by line or multi-line, also after the
+downgrade of `-U`): no NUL is written. -/
+theorem search_slice_stdout_no_nul (cfg : Searcher.Config) (m : Searcher.MatcherI) (σ : Searcher.Script)
+    (inp : Bytes) (det : Det)
+    (hd : (det = .quit ∧ cfg.binary = .quit 0) ∨ (det = .convert ∧ cfg.binary = .convert 0))
+    (path : Bytes) (hp : 0 ∉ path) :
+    0 ∉ render path (stdRun det ((Searcher.searchSlice cfg m σ inp).events.filterMap toEv)) := by
+  unfold Searcher.searchSlice
+  split
+  · exact multiline_stdout_no_nul cfg m σ inp det hd path hp
+  · exact slice_stdout_no_nul cfg m σ inp det hd path hp
+
+/-- **`search_reader`, whichever strategy it selects** (the roll buffer line by line, or -- `-U` --
+the whole input read into memory and searched by `MultiLine`), any heap limit, capacity, read
+script: no NUL is written (line terminator ≠ NUL). -/
+theorem search_reader_stdout_no_nul (cfg : Searcher.Config) (m : Searcher.MatcherI) (σ : Searcher.Script)
+    (heapLimit cap : Option Nat) (rdr : Reader) (hlt : 0 ≠ cfg.lineTerm.asByte) (det : Det)
+    (hd : (det = .quit ∧ cfg.binary = .quit 0) ∨ (det = .convert ∧ cfg.binary = .convert 0))
+    (path : Bytes) (hp : 0 ∉ path) :
+    0 ∉ render path (stdRun det ((Searcher.searchReader cfg m σ heapLimit cap rdr).events.filterMap toEv)) := by
+  unfold Searcher.searchReader
+  split
+  · exact multiline_stdout_no_nul cfg m σ rdr.data det hd path hp
+  · have hbin : (Searcher.lineBufferConfig cfg heapLimit cap).binary = cfg.binary.toLB := by
+      unfold Searcher.lineBufferConfig
+      cases heapLimit with
+      | none => rfl
+      | some l => dsimp only
+    have hterm : (Searcher.lineBufferConfig cfg heapLimit cap).lineterm = cfg.lineTerm.asByte := by
+      unfold Searcher.lineBufferConfig
+      cases heapLimit with
+      | none => rfl
+      | some l => dsimp only
+    apply reader_stdout_no_nul cfg m σ _ (by rw [hterm]; exact hlt) det _ rdr.withBomPeek path hp
+    rw [hbin]
+    cases hd with
+    | inl h => exact Or.inl ⟨h.1, by rw [h.2]; rfl⟩
+    | inr h => exact Or.inr ⟨h.1, by rw [h.2]; rfl⟩
 
 /-! ### which detection a file gets (`hiargs.rs`, `search.rs`) -/
 
